@@ -36,6 +36,12 @@ LIBRARY = [
     ['class Acc:', '    def __init__(self):', '        self.total = 0', '    def add(self, n):', '        self.total += n',
      '        return self.total'],
     ['acc_add = Acc().add'],
+    # results that instructors pass on to another call: an ordinary object, and one whose repr is broken
+    ['def make_acc(n):', '    a = Acc()', '    a.add(n)', '    return a'],
+    ['def use_acc(a):', "    return type(a).__name__ + ':' + ','.join([str(a.total + 1), 'y']) + ':' + str(isinstance(a, Acc))"],
+    ['class Grumpy:', '    def __init__(self):', '        self.mood = 3', '    def __repr__(self):', "        raise ValueError('no repr today')"],
+    ['def make_grumpy():', '    return Grumpy()'],
+    ['def use_grumpy(g):', '    return g.mood + 1'],
 ]
 
 LIB_FUNCS = {
@@ -44,7 +50,10 @@ LIB_FUNCS = {
     'chatty': ['small'], 'noeol': ['str'], 'blank': [], 'swallow': ['int0'], 'writer': ['str'],
     'size': ['seq'], 'ident': ['any'], 'mutate': ['list'], 'tick': [], 'kw': ['int'], 'init_state': ['int'], 'read_state': [],
     'biggest': ['int', 'int'], 'add_ten': ['int'], 'cached_sq': ['small'], 'acc_add': ['int'],
+    'make_acc': ['int'],
 }
+# (consumer, producer): the consumer is called with what an earlier call of the producer returned
+RESULT_CHAINS = [('use_acc', 'make_acc'), ('use_grumpy', 'make_grumpy'), ('ident', 'make_acc'), ('size', 'mutate')]
 
 
 EXOTIC = ("float('inf')", "float('nan')", "[float('-inf')]")
